@@ -1,8 +1,11 @@
 import PedalModel.DriverLoop
+import PedalModel.Timeout
 open Pedal
 
-/- Line-protocol driver for C14: replace the stub dispatch with the model's request handlers. -/
+/- Line-protocol driver for C14 (timeout interleaving machine). -/
 def dispatch : List String → String
+  | "sched" :: ts => Timeout.handleSched ts
+  | "cfg" :: ts => Timeout.handleCfg ts
   | _ => "bad-request"
 
 def main : IO Unit := driverMain dispatch
